@@ -75,7 +75,8 @@ def main():
             res['tests_patched'] = m[-1] if m else out[-300:]
             res['tests_failed'] = re.findall(r'FAILED (\S+)', out)
         for c in [c for c in checks if c]:
-            env = dict(os.environ, VERIF_REPO=dst, VERIF_SEED=a.seed)
+            env = dict(os.environ, VERIF_REPO=dst, VERIF_SEED=a.seed,
+                       VERIF_REPLAY_DIR=os.path.join(tmp, 'replays'))
             rc, out, t = run([os.path.join(VERIF, 'check'), c, '--tier', a.tier,
                               '--no-evidence'], env=env, cwd=VERIF, timeout=3600)
             sigs = sorted(set(re.findall(r'^signature: (.*)$', out, re.M)))
